@@ -7,7 +7,7 @@ from hypothesis import strategies as st
 from gen.crystals import build_crystal, crystal_with_supercell, keys, qpoint_strategy
 from oracles.lattice import shortest_lattice_vector
 from oracles.models import IFC, fold_ifc
-from vlib.case import Out, Sub, relerr, rng_from
+from vlib.case import present, Out, Sub, relerr, rng_from
 
 PROPERTY = "C02"
 TECHNIQUE = "property-based testing (Hypothesis): differential against an independent lattice Fourier sum of closed-form IFCs"
@@ -41,6 +41,10 @@ def fourier_specs(draw, tier):
         ncomm=draw(st.integers(1, 4)),
         factor=draw(st.sampled_from(["default", 1.0, 521.47083])),
         qlayout=draw(st.sampled_from(["list", "array", "column_view", "strided", "fortran", "transposed"])),
+        # masses as built from the symbols, or set afterwards through the public setter (whole numbers given as Python ints,
+        # an integer ndarray, a strided float view)
+        set_masses=draw(st.sampled_from(["no", "no", "int_list", "int_array", "strided"])),
+        fclayout=draw(st.sampled_from(["array", "array", "fortran", "strided", "list"])),
     )
     return base
 
@@ -104,6 +108,18 @@ def run_fourier(spec):
     Lp = prim.cell
     npa = len(prim)
     masses = prim.masses
+    if spec.get("set_masses", "no") != "no":
+        m_new = np.rint(masses * (1.0 + 0.5 * rng_from(spec["key"], 9).random(len(masses)))) + 1.0
+        if spec["set_masses"] == "int_list":
+            ph.masses = [int(x) for x in m_new]
+        elif spec["set_masses"] == "int_array":
+            ph.masses = np.array(m_new, dtype="int64")
+        else:
+            ph.masses = present(m_new, "strided")
+        masses = np.array(m_new, dtype=float)
+        prim = ph.primitive
+        if not np.array_equal(np.asarray(prim.masses, dtype=float), masses):
+            return Out(ok=False, msg="masses set through the setter (%s) are reported as %s" % (m_new.tolist(), np.asarray(prim.masses).tolist()))
     rng = rng_from(spec["key"])
     # supercell lattice in primitive coordinates (rows)
     T = scell.cell @ np.linalg.inv(Lp)
@@ -121,7 +137,7 @@ def run_fourier(spec):
     sc_pos_p = scell.positions @ np.linalg.inv(Lp)
     fc, ju = fold_ifc(ifc, sc_pos_p, Ti)
     fc_in = fc[prim.p2s_map].copy() if spec["compact"] else fc
-    ph.force_constants = fc_in
+    ph.force_constants = present(fc_in, spec.get("fclayout", "array"))
     factor = ph.unit_conversion_factor
 
     # q list: drawn q plus commensurate points
